@@ -13,7 +13,7 @@ MinerNames(w) == {w.miners[i].m : i \in Idx(w.miners)}
 MinerOf(w, m) == w.miners[CHOOSE i \in Idx(w.miners) : w.miners[i].m = m]
 Dep0Sum(w, g) == BSumSeq([i \in Idx(w.miners) |-> g.dep0[w.miners[i].m]])
 
-Chk(prop, name, holds, tag, e) == holds \/ PrintT(<<"VIOL", prop, name, l, tag, e.ev>>)
+Chk(prop, name, holds, tag, e) == IF holds THEN TRUE ELSE PrintT(<<"VIOL", prop, name, l, tag, e.ev>>)
 
 \* a failed UpdatePledgeTotal whose requested delta would have kept the ADJUSTED total non-negative
 \* is the known consequence of finding F1
